@@ -51,6 +51,9 @@ def run(ctx):
             ctx.extra["properties"] = c.get("properties")
             ctx.extra["properties_with_explicit_value"] = c.get("properties-with-explicit-value")
             ctx.extra["pinned_initial_values_checked"] = c.get("pinned-initial")
+            ctx.extra["inherit_after_box_building_checked"] = c.get("after-boxes")
+            if not c.get("after-boxes"):
+                raise MachineryError("no `inherit` value could be compared after box building (the family is vacuous)")
             for smp in summ.get("samples", []):
                 if isinstance(smp, dict) and "properties_without_explicit_value" in smp:
                     ctx.extra["properties_without_explicit_value"] = smp["properties_without_explicit_value"]
